@@ -13,6 +13,7 @@ import (
 	"math/big"
 	"net"
 	"net/url"
+	"os"
 	"strings"
 	"sync"
 	"time"
@@ -57,6 +58,9 @@ func RunStep(labels []string) (out []string) {
 				out = append(out, "PANIC")
 			} else {
 				out = append(out, "ERR")
+			}
+			if os.Getenv("VERIF_H2_DEBUG") != "" {
+				fmt.Fprintln(os.Stderr, "step error:", tok, err)
 			}
 			return out
 		}
@@ -368,6 +372,7 @@ func RunE2E(dribble int, prefaceWhole bool, labels []string, grace time.Duration
 	eps := [2]*Endpoint{NewEndpoint(), NewEndpoint()}
 	var toks [2][]string
 	dead := false
+	var isOpen [2]bool
 
 	// waitFence collects what endpoint z receives until the fence shows up.
 	waitFence := func(z int) bool {
@@ -423,7 +428,8 @@ func RunE2E(dribble int, prefaceWhole bool, labels []string, grace time.Duration
 		if !send(y, raw) {
 			dead = true
 		}
-		if !dead && !open {
+		isOpen[y] = open
+		if !dead && !open && !isOpen[z] {
 			if !send(y, fenceRaw(eps[y], i)) || !waitFence(z) || !send(z, fenceRaw(eps[z], i)) || !waitFence(y) {
 				dead = true
 			}
